@@ -67,7 +67,11 @@ def single(repo, report):
     def exp(rv):
         return "rc" if (rv["d"] > 0 and rv["rc_has"]) else "fw"
 
-    mism, n, _ = check_table(rows, roles, exp, outcome)
+    odd = sorted({k for r in rows for k in r.valuation if k.startswith("sign:") and ".score])" in k and k != roles["d"].key})
+    if odd:
+        mism, n = [{"inputs": {}, "code": f"compares {odd[0][5:]} with 0", "expected": f"compares {roles['d'].key[5:]} with 0 (reverse score - forward score)"}], len(rows)
+    else:
+        mism, n, _ = check_table(rows, roles, exp, outcome)
     report.ob("C16.R1", "ReverseComplementer.__call__", not mism, facts={"rows": len(rows), "mismatches": mism[:4]}, expected="reverse complement iff it has a match and reverse score > forward score",
               loc=repo.loc(fn), cases=n, fact_key="needs-nonempty" if mism and all(m["code"] == "raise" for m in mism) else None,
               why=(f"for {mism[0]['inputs']} the code does '{mism[0]['code']}', the rule says '{mism[0]['expected']}'" if mism else ""))
@@ -170,6 +174,12 @@ def paired(repo, report):
                 return "swapped" if rv["d"] > 0 and has else "unswapped"
 
             ign = [k for r in sub for k in r.valuation]
+            # the decision must compare the two TOTAL scores: any other comparison of score sums is a wrong decision
+            # quantity (a recognised construct with a wrong fact), not an unknown shape
+            odd = sorted({k for r in sub for k in r.valuation if k.startswith("sign:") and ".score])" in k and k != roles["d"].key})
+            if odd:
+                bad_tbl.append({"inputs": {"cutter1_none": n1, "cutter2_none": n2}, "code": f"compares {odd[0][5:]} with 0", "expected": f"compares {roles['d'].key[5:]} with 0 (swapped total - unswapped total)"})
+                continue
             try:
                 mism, n, _ = check_table(sub, roles, exp, outcome)
             except Unrecognised as u:
